@@ -220,6 +220,8 @@ pub enum TraceEvent {
     Popped(usize),
     /// The simulation time was written (seconds, nanoseconds).
     TimeWritten(i64, u32),
+    /// A step time-out was injected.
+    TimeoutFired,
 }
 
 /// Rare branches whose reach is reported in the evidence.
@@ -416,6 +418,7 @@ pub(crate) fn park_timeout_fires() -> bool {
     });
     if fires {
         probe(Probe::TimeoutInjected);
+        trace(TraceEvent::TimeoutFired);
     }
     fires
 }
